@@ -282,6 +282,7 @@ type Case struct {
 	Status  string `json:"status"`
 	Extra   string `json:"extra,omitempty"` // "" | nil-heightmaps
 	Ordinal int    `json:"ordinal,omitempty"`
+	leanNet bool   // enumerator only: status is not the first of its alphabet (see network())
 
 	// counter
 	Start string `json:"start,omitempty"` // fresh | wire | save-stone | save-cave_air
